@@ -9,6 +9,14 @@ CHECKS = {
                 text="Every CrossHair condition is 'Confirmed over all paths' inside the bound (<=3 records, keys 1-2 B + 255/256 B, values <=2-3 B, bufsize in [-1,200], <=3 handles, <=3 sessions): one operation from every stale-handle state, failed operations leave file and views unchanged, headers preserved, listed keys readable in-session, 2-handle session histories. Bounded symbolic verification, not a proof for larger files.",
                 note="Trusts CrossHair+z3 and the PyStruct/MemStream/FakePath/AssocDict/RWLock models (differentially validated against struct, real files and dict on every run); counterexamples are replayed with real struct, files and fasteners before being reported.",
                 design="3/C02"),
+    "C03": dict(engine="XH", technique="CrossHair symbolic execution of UKVFile/backend append sessions on a write-recording file model; crash offset, key/value bytes symbolic; z3 decides every path",
+                text="Crash image = pre-image + the recorded writes applied in order up to a symbolic byte offset; for every offset and all key/value bytes within the bound (1-2 puts, 0-1 prior record, keys 1-2 B, values <=2-3 B) z3-decided paths confirm: committed records exact, session records complete-or-absent, recovery appends (and a second crash inside the recovery append) read back. Bounded symbolic verification.",
+                note="Trusts CrossHair+z3 and the file/struct/dict models (validated each run); assumes bytes reach the disk in program order; counterexamples replayed on real files with a recording stream wrapper.",
+                design="3/C03"),
+    "C04": dict(engine="XH", technique="CrossHair symbolic execution of reading()/writing() sessions with a symbolic fault step (k-th write, close, open, encoder, body, flush) on lock/file models; z3 decides every path",
+                text="Fault-sequence and session-granularity part of the property only: for a fault injected at a symbolic step of a reading()/writing() session, all paths confirm lock released, file closed, state idle, next sessions on the same and a fresh handle proceed and see exactly the completed records; 3-session schedules over 2 handles confirm writers exclude and readers share at the call-site level. Real multi-process schedules and fcntl lock correctness are NOT covered.",
+                note="The reader/writer lock is a bookkeeping model (fasteners' fcntl semantics across processes are trusted, not verified); real replay probes the lock from a fresh process. Multi-process random-delay schedules of the quantifier are outside this technique.",
+                design="3/C04"),
 }
 NA_MAP = {}
 NA_REASON = "check not built yet in this round (claimed once its harness lands)"
